@@ -466,18 +466,20 @@ func c10Sock(kinds [2]int, seq []int) string {
 			own = addrA6
 			peer4 = mapped
 		}
+		var opErr *tcpip.Error
 		switch op {
 		case 0:
-			ep.Bind(tcpip.FullAddress{Port: P}, nil)
+			opErr = ep.Bind(tcpip.FullAddress{Port: P}, nil)
 		case 1:
-			ep.Bind(tcpip.FullAddress{Addr: own, Port: P}, nil)
+			opErr = ep.Bind(tcpip.FullAddress{Addr: own, Port: P}, nil)
 		case 2:
-			ep.Bind(tcpip.FullAddress{Port: 0}, nil)
+			opErr = ep.Bind(tcpip.FullAddress{Port: 0}, nil)
 		case 3:
-			ep.Connect(tcpip.FullAddress{Addr: peer4, Port: 99})
+			opErr = ep.Connect(tcpip.FullAddress{Addr: peer4, Port: 99})
 		case 4:
+			opErr = tcpip.ErrInvalidEndpointState
 			if dual[k] {
-				ep.Connect(tcpip.FullAddress{Addr: peer6, Port: 99})
+				opErr = ep.Connect(tcpip.FullAddress{Addr: peer6, Port: 99})
 			}
 		case 5:
 			ep.Listen(2)
@@ -503,11 +505,18 @@ func c10Sock(kinds [2]int, seq []int) string {
 		switch {
 		case op == 6:
 			holds[k] = false
+		case op <= 2 && opErr != nil:
+			// a failed bind changes nothing
+		case (op == 3 || op == 4) && opErr != nil && opErr != tcpip.ErrConnectStarted:
+			// a failed connect changes nothing either: a socket that was bound stays bound
 		case op <= 2 && la.Port != 0 && !connected[k]:
 			holds[k] = true
 			fam[k] = "4"
 			if dual[k] {
 				fam[k] = "46"
+				if op == 1 {
+					fam[k] = "6" // bound to a specific IPv6 address
+				}
 			}
 		case (op == 3 || op == 4) && la.Port != 0:
 			mine := "4"
@@ -526,6 +535,26 @@ func c10Sock(kinds [2]int, seq []int) string {
 			}
 		}
 		hadPort[k] = la.Port != 0
+		// every socket that holds a reservation is known to the port manager
+		for j := range eps {
+			if !holds[j] || closed[j] {
+				continue
+			}
+			lj, _ := eps[j].GetLocalAddress()
+			tp := tcpip.TransportProtocolNumber(udp.ProtocolNumber)
+			if strings.HasPrefix(c10SockKinds[kinds[j]], "tcp") {
+				tp = tcp.ProtocolNumber
+			}
+			for _, fm := range fam[j] {
+				np := []tcpip.NetworkProtocolNumber{ipv4.ProtocolNumber}
+				if fm == '6' {
+					np[0] = ipv6.ProtocolNumber
+				}
+				if lj.Port != 0 && n.S.IsPortAvailable(np, tp, "", lj.Port) {
+					return fmt.Sprintf("after %v: the open %s socket #%d is bound to port %d, but the port manager reports the port free (network %#x): another socket could bind it now", hist, c10SockKinds[kinds[j]], j, lj.Port, np[0])
+				}
+			}
+		}
 	}
 	for k := range eps {
 		if !closed[k] {
